@@ -719,15 +719,17 @@ func (m *Mint) GetMeltQuoteState(ctx context.Context, quoteId string) (storage.M
 			m.logInfof("payment %v failed with error: %v. Setting melt quote '%v' to unpaid and removing proofs from pending",
 				meltQuote.PaymentHash, paymentStatus.PaymentFailureReason, meltQuote.Id)
 
+			// release the proofs first: if the mint stops in between, the quote is
+			// still pending and the next status check settles it
+			_, err = m.removePendingProofsForQuote(meltQuote.Id)
+			if err != nil {
+				errmsg := fmt.Sprintf("error removing pending proofs for quote: %v", err)
+				return storage.MeltQuote{}, cashu.BuildCashuError(errmsg, cashu.DBErrCode)
+			}
 			meltQuote.State = nut05.Unpaid
 			err = m.db.UpdateMeltQuote(meltQuote.Id, "", meltQuote.State)
 			if err != nil {
 				errmsg := fmt.Sprintf("error updating melt quote state: %v", err)
-				return storage.MeltQuote{}, cashu.BuildCashuError(errmsg, cashu.DBErrCode)
-			}
-			_, err = m.removePendingProofsForQuote(meltQuote.Id)
-			if err != nil {
-				errmsg := fmt.Sprintf("error removing pending proofs for quote: %v", err)
 				return storage.MeltQuote{}, cashu.BuildCashuError(errmsg, cashu.DBErrCode)
 			}
 		}
@@ -896,15 +898,17 @@ func (m *Mint) MeltTokens(ctx context.Context, meltTokensRequest nut05.PostMeltB
 				m.logInfof("no outgoing payment found with hash: %v. Removing pending proofs and marking quote '%v' as unpaid",
 					meltQuote.PaymentHash, meltQuote.Id)
 
+				// release the proofs first: if the mint stops in between, the quote is
+				// still pending and the next status check settles it
+				err = m.db.RemovePendingProofs(Ys)
+				if err != nil {
+					errmsg := fmt.Sprintf("error removing proofs from pending: %v", err)
+					return storage.MeltQuote{}, cashu.BuildCashuError(errmsg, cashu.DBErrCode)
+				}
 				meltQuote.State = nut05.Unpaid
 				err = m.db.UpdateMeltQuote(meltQuote.Id, "", meltQuote.State)
 				if err != nil {
 					errmsg := fmt.Sprintf("error updating melt quote state: %v", err)
-					return storage.MeltQuote{}, cashu.BuildCashuError(errmsg, cashu.DBErrCode)
-				}
-				err = m.db.RemovePendingProofs(Ys)
-				if err != nil {
-					errmsg := fmt.Sprintf("error removing proofs from pending: %v", err)
 					return storage.MeltQuote{}, cashu.BuildCashuError(errmsg, cashu.DBErrCode)
 				}
 				return meltQuote, nil
@@ -922,15 +926,17 @@ func (m *Mint) MeltTokens(ctx context.Context, meltTokensRequest nut05.PostMeltB
 				m.logInfof("payment failed with error: %v. Removing pending proofs and marking quote '%v' as unpaid",
 					paymentStatus.PaymentFailureReason, meltQuote.Id)
 
+				// release the proofs first: if the mint stops in between, the quote is
+				// still pending and the next status check settles it
+				err = m.db.RemovePendingProofs(Ys)
+				if err != nil {
+					errmsg := fmt.Sprintf("error removing proofs from pending: %v", err)
+					return storage.MeltQuote{}, cashu.BuildCashuError(errmsg, cashu.DBErrCode)
+				}
 				meltQuote.State = nut05.Unpaid
 				err = m.db.UpdateMeltQuote(meltQuote.Id, "", meltQuote.State)
 				if err != nil {
 					errmsg := fmt.Sprintf("error updating melt quote state: %v", err)
-					return storage.MeltQuote{}, cashu.BuildCashuError(errmsg, cashu.DBErrCode)
-				}
-				err = m.db.RemovePendingProofs(Ys)
-				if err != nil {
-					errmsg := fmt.Sprintf("error removing proofs from pending: %v", err)
 					return storage.MeltQuote{}, cashu.BuildCashuError(errmsg, cashu.DBErrCode)
 				}
 				return meltQuote, nil
